@@ -608,6 +608,40 @@ func validEdits(c *chain.Chain, s *chain.Step) (out []blockVariant) {
 	return []blockVariant{{label, "valid", nil, b}}
 }
 
+// defaultHeaderVariants: the block's execution payload on a pre-state whose latest_execution_payload_header is still the
+// DEFAULT one (a chain that reached the fork without ever processing a payload: bellatrix before the merge transition
+// block, capella/deneb reached before it), with a payload parent hash that is (a) non-zero, (b) zero. Per fork:
+// bellatrix checks the parent hash only once the merge is complete (both accepted: the payload is the merge transition
+// block); capella and deneb check it always (non-zero refused; zero = the default header's block_hash, accepted).
+// The blocks are signed; the caller heals the state root where the real code gets through.
+func defaultHeaderVariants(c *chain.Chain, s *chain.Step, fs *flat.State) (out []blockVariant) {
+	if s.Block.Body().Payload == nil || fs.PayloadHeader == nil {
+		return nil
+	}
+	g := *fs
+	g.PayloadHeader = &flat.PayloadHeader{}
+	for _, zero := range []bool{false, true} {
+		b := s.Block.Clone(c.Spec)
+		var h common.Hash32
+		if !zero {
+			for i := range h {
+				h[i] = byte(0xd0 + i%16)
+			}
+		}
+		*b.Body().Payload.ParentHash = h
+		c.SignBlock(b, s.PreBlock)
+		switch {
+		case zero:
+			out = append(out, blockVariant{"pre-state:default-exec-header:payload-parent-hash-zero(valid)", "valid", &g, b})
+		case fs.Fork == "bellatrix":
+			out = append(out, blockVariant{"pre-state:default-exec-header:payload-parent-hash-nonzero(merge-transition-block,valid)", "valid", &g, b})
+		default:
+			out = append(out, blockVariant{"pre-state:default-exec-header:payload-parent-hash-nonzero", "payload.parent_hash", &g, b})
+		}
+	}
+	return out
+}
+
 // blockVariant: a pre-state variant together with the block to run on it (nil: the step's block).
 type blockVariant struct {
 	label, rule string
